@@ -129,11 +129,14 @@ class MTTableKernel(gpytorch.kernels.Kernel):
     def forward(self, x1, x2, diag=False, **kw):
         def pos(x):
             i = x[..., 0].long()
-            f = (i.unsqueeze(-1) * self.t + torch.arange(self.t)).reshape(-1)
+            f = (i.unsqueeze(-1) * self.t + torch.arange(self.t)).reshape(*i.shape[:-1], -1)
             return self.perm[f]
         p1, p2 = pos(x1), pos(x2)
-        Kt = self.table[p1][:, p2]
-        return Kt.diagonal() if diag else Kt
+        bshape = torch.broadcast_shapes(p1.shape[:-1], p2.shape[:-1])
+        p1 = p1.expand(*bshape, p1.shape[-1])
+        p2 = p2.expand(*bshape, p2.shape[-1])
+        Kt = self.table[p1.unsqueeze(-1), p2.unsqueeze(-2)]
+        return Kt.diagonal(dim1=-1, dim2=-2) if diag else Kt
 
 
 class MTStubGP(gpytorch.models.ExactGP):
